@@ -763,8 +763,7 @@ class Probability(Expression):
         return Probability(distribution)
 
     def _get_key(self):  # type:ignore
-        # TODO incorporate more information from children and parents
-        return 0, self.children[0].name
+        return 0, self.children[0].name, self.distribution.to_y0()
 
     def to_text(self) -> str:
         """Output this probability in the internal string format."""
@@ -1696,7 +1695,7 @@ class PopulationProbability(Probability):
         return PopulationProbability(population=self.population, distribution=distribution)
 
     def _get_key(self):  # type:ignore
-        return -1, self.population, self.children[0].name
+        return -1, self.population, self.children[0].name, self.distribution.to_y0()
 
     def to_y0(self) -> str:
         """Output this probability instance as y0 internal DSL code."""
